@@ -1,9 +1,12 @@
 ---------------------------- MODULE Gen_Faults3x ----------------------------
-(* EVERY schedule (exhaustive enumeration of paths) of three racing callers  *)
-(* that all match both overlapping descriptions, counts 1 and 2, both list   *)
-(* orders: the thorough tier's complete coverage of the three-way race.      *)
+(* EVERY order of the Match / Dec / Prune steps of three racing callers     *)
+(* (exhaustive enumeration of paths with the reduction of FaultsGen):       *)
+(* three call kinds, two overlapping descriptions, counts 1..2, both list   *)
+(* orders.                                                                  *)
 EXTENDS FaultsGen
 x3Callers == 1..3
-x3CallChoices == {[c \in x3Callers |-> KSuper], [c \in x3Callers |-> IF c = 3 THEN KOtherV ELSE KExact]}
-x3InitChoices == {<<DT(1), DA(1)>>, <<DA(1), DT(1)>>, <<DT(2)>>}
+x3Kinds == <<KSuper, KOtherV, KOtherOp>>
+x3CallChoices == {[c \in x3Callers |-> x3Kinds[f[c]]] :
+                    f \in {g \in [x3Callers -> DOMAIN x3Kinds] : \A c \in x3Callers : c > 1 => g[c - 1] <= g[c]}}
+x3InitChoices == {<<DT(1), DA(1), DO(1)>>, <<DA(1), DT(1)>>, <<DT(2), DA(1)>>, <<DA(2), DT(1)>>, <<DT(1)>>, <<DT(2)>>}
 =============================================================================
